@@ -222,6 +222,41 @@ func Resolve(p *load.Program) *Roles {
 			}
 			return w == 1 && b == 1 && fl == 1
 		}), r.Errs)
+		// a guard wrapper with the same signature that merely calls the real one is not the role
+		if r.WriteDom2 == nil {
+			cands := filter(mod, func(f *ssa.Function) bool {
+				ps := f.Signature.Params()
+				if ps.Len() != 3 || f.Signature.Results().Len() != 0 || f.Signature.Variadic() {
+					return false
+				}
+				hasW := false
+				for i := 0; i < ps.Len(); i++ {
+					if ps.At(i).Type().String() == "io.Writer" {
+						hasW = true
+					}
+				}
+				return hasW
+			})
+			var leaf []*ssa.Function
+			for _, c := range cands {
+				wraps := false
+				cs, _ := ssau.Callees(c)
+				for _, d := range cs {
+					for _, o := range cands {
+						if d == o && o != c {
+							wraps = true
+						}
+					}
+				}
+				if !wraps {
+					leaf = append(leaf, c)
+				}
+			}
+			if len(leaf) == 1 {
+				delete(r.Errs, "writeDom2")
+				r.WriteDom2 = leaf[0]
+			}
+		}
 	}
 	if r.VerifyBatch != nil {
 		var fb, b2r []*ssa.Function
